@@ -497,3 +497,98 @@ pub fn idle_close_timers_native(state: u8, has_idle: bool) -> u32 {
     assert!(conn.timers.get(Timer::Close) == Some(now + 3 * conn.pto(conn.highest_space)), "close timer must be now + 3 PTO");
     1
 }
+
+/// Native replay body for the E2 queries `e2_update_keys` / `e2_decrypt_packet_key_update` /
+/// `e2_decrypt_packet_body_keys` (C04): a packet key that authenticates a payload iff its last byte is
+/// the key's tag stands in for the AEAD.  Current keys = tag 1, next keys = tag 2, the keys derived
+/// after an update = tag 3.  A packet with a flipped key-phase bit rotates the keys exactly when it
+/// authenticates under the NEXT keys; a forged one (wrong tag) changes nothing; afterwards packets of
+/// the new phase authenticate under the (new) current keys and stragglers of the old phase under the
+/// previous keys.
+pub fn update_keys_native(remote: bool) -> u32 {
+    use crate::crypto::{CryptoError, KeyPair, PacketKey};
+    struct TagKey(u8);
+    impl PacketKey for TagKey {
+        fn encrypt(&self, _: u64, _: &mut [u8], _: usize) {}
+        fn decrypt(&self, _: u64, _: &[u8], payload: &mut BytesMut) -> Result<(), CryptoError> {
+            if payload.last() == Some(&self.0) { Ok(()) } else { Err(CryptoError) }
+        }
+        fn tag_len(&self) -> usize { 0 }
+        fn confidentiality_limit(&self) -> u64 { u64::MAX }
+        fn integrity_limit(&self) -> u64 { u64::MAX }
+    }
+    struct Sess;
+    impl crate::crypto::Session for Sess {
+        fn initial_keys(&self, _: ConnectionId, _: Side) -> crate::crypto::Keys { nullcrypto::keys() }
+        fn handshake_data(&self) -> Option<Box<dyn std::any::Any>> { None }
+        fn peer_identity(&self) -> Option<Box<dyn std::any::Any>> { None }
+        fn early_crypto(&self) -> Option<(Box<dyn crate::crypto::HeaderKey>, Box<dyn PacketKey>)> { None }
+        fn early_data_accepted(&self) -> Option<bool> { None }
+        fn is_handshaking(&self) -> bool { false }
+        fn read_handshake(&mut self, _: &[u8]) -> Result<bool, TransportError> { Ok(false) }
+        fn transport_parameters(&self) -> Result<Option<TransportParameters>, TransportError> { Ok(None) }
+        fn write_handshake(&mut self, _: &mut Vec<u8>) -> Option<crate::crypto::Keys> { None }
+        fn next_1rtt_keys(&mut self) -> Option<KeyPair<Box<dyn PacketKey>>> {
+            Some(KeyPair { local: Box::new(TagKey(3)), remote: Box::new(TagKey(3)) })
+        }
+        fn is_valid_retry(&self, _: ConnectionId, _: &[u8], _: &[u8]) -> bool { false }
+        fn export_keying_material(&self, _: &mut [u8], _: &[u8], _: &[u8]) -> Result<(), crate::crypto::ExportKeyingMaterialError> { Err(crate::crypto::ExportKeyingMaterialError) }
+    }
+    let pair = |t: u8| -> KeyPair<Box<dyn PacketKey>> { KeyPair { local: Box::new(TagKey(t)), remote: Box::new(TagKey(t)) } };
+    let mut conn = mk_conn(false, false);
+    conn.crypto = Box::new(Sess);
+    let mut keys = nullcrypto::keys();
+    keys.packet = pair(1);
+    conn.spaces[SpaceId::Data].crypto = Some(keys);
+    conn.next_crypto = Some(pair(2));
+    conn.spaces[SpaceId::Data].sent_with_keys = 77;
+    conn.spaces[SpaceId::Data].rx_packet = 4;
+    let now = crate::verif::mk_instant(51, 0).unwrap();
+    let kp0 = conn.key_phase;
+    let mk = |key_phase: bool, number: u8, tag: u8| Packet {
+        header: Header::Short { spin: false, key_phase, dst_cid: ConnectionId::new(&[2; 8]), number: PacketNumber::U8(number) },
+        header_data: Bytes::from_static(&[0x40, 2, 2, 2, 2, 2, 2, 2, 2, 0]),
+        payload: BytesMut::from(&[0u8, 0, tag][..]),
+    };
+    if !remote {
+        // a locally initiated update through the same routine
+        conn.update_keys(None, false);
+        assert!(conn.key_phase == !kp0, "key phase did not flip");
+        let prev = conn.prev_crypto.as_ref().expect("old keys not kept");
+        assert!(!prev.update_unacked && prev.end_packet.is_none());
+        assert!(conn.spaces[SpaceId::Data].sent_with_keys == 0, "sent-with-keys counter not restarted");
+        return 1;
+    }
+    // forged: flipped phase bit but it does not authenticate under the next keys
+    let mut forged = mk(!kp0, 5, 9);
+    assert!(conn.decrypt_packet(now, &mut forged).is_err(), "a packet that authenticates under no key was accepted");
+    assert!(conn.key_phase == kp0 && conn.prev_crypto.is_none(), "an unauthentic packet rotated the keys");
+    // genuine update by the peer
+    let mut upd = mk(!kp0, 5, 2);
+    assert!(matches!(conn.decrypt_packet(now, &mut upd), Ok(Some(5))), "a genuine key update was rejected");
+    assert!(conn.key_phase == !kp0, "key phase did not flip on an authenticated update");
+    let prev = conn.prev_crypto.as_ref().expect("old keys not kept");
+    assert!(prev.update_unacked && prev.end_packet.map(|x| x.0) == Some(5), "previous keys not tagged as a remote update ending at the updating packet");
+    assert!(conn.spaces[SpaceId::Data].sent_with_keys == 0);
+    // a straggler of the old phase with a lower number still authenticates under the previous keys only
+    let mut old = mk(kp0, 3, 1);
+    assert!(matches!(conn.decrypt_packet(now, &mut old), Ok(Some(3))), "a straggler of the previous key phase was rejected");
+    let mut old_wrong = mk(kp0, 3, 2);
+    assert!(conn.decrypt_packet(now, &mut old_wrong).is_err(), "a packet of the previous phase was authenticated under the wrong keys");
+    assert!(conn.key_phase == !kp0);
+    // key phases exist in the Data space only: a Handshake packet is authenticated under the Handshake keys
+    // whatever the connection's key phase is
+    let mut hk = nullcrypto::keys();
+    hk.packet = pair(7);
+    conn.spaces[SpaceId::Handshake].crypto = Some(hk);
+    for phase in [false, true] {
+        conn.key_phase = phase;
+        let mut hs = Packet {
+            header: Header::Long { ty: LongType::Handshake, dst_cid: ConnectionId::new(&[2; 8]), src_cid: ConnectionId::new(&[3; 8]), number: PacketNumber::U8(1), version: 1 },
+            header_data: Bytes::from_static(&[0xe0, 0, 0, 0, 1]),
+            payload: BytesMut::from(&[0u8, 0, 7][..]),
+        };
+        assert!(matches!(conn.decrypt_packet(now, &mut hs), Ok(Some(1))), "a Handshake packet was not authenticated under the Handshake keys");
+    }
+    2
+}
